@@ -231,6 +231,29 @@ impl EditGen {
 fn valid_preserving(lang: &Lang, text: &Text, t: &mut Tape) -> Option<Edit> {
     let b = &text.bytes;
     let len = b.len();
+    // meta.json "toggles": [[marker, prefix], ...]: put `prefix` in front of an occurrence of `marker` or take it away
+    // (switches the role of the token that follows while its own bytes and padding stay untouched)
+    if let Some(tg) = lang.meta.get("toggles").and_then(|x| x.as_array()) {
+        if !tg.is_empty() && t.pct(25) {
+            let pair = t.pick(tg);
+            if let (Some(marker), Some(prefix)) = (pair.get(0).and_then(|x| x.as_str()), pair.get(1).and_then(|x| x.as_str())) {
+                let (m, pf) = (marker.as_bytes(), prefix.as_bytes());
+                let occ: Vec<usize> = (0..len.saturating_sub(m.len() - 1)).filter(|&i| b[i..].starts_with(m)).collect();
+                if !occ.is_empty() {
+                    let at = *t.pick(&occ);
+                    // the prefix may be separated from the marker by blanks/newlines
+                    let mut ws = at;
+                    while ws > 0 && (b[ws - 1] == b' ' || b[ws - 1] == b'\n') {
+                        ws -= 1;
+                    }
+                    if ws >= pf.len() && &b[ws - pf.len()..ws] == pf {
+                        return Some(Edit { start: ws - pf.len(), old_end: ws, inserted: vec![] });
+                    }
+                    return Some(Edit { start: ws, old_end: ws, inserted: pf.to_vec() });
+                }
+            }
+        }
+    }
     match t.weighted(&[35, 15, 35, 15]) {
         0 => {
             // replace a word by a word of the same kind
